@@ -461,6 +461,10 @@ func NeedsSeparator(a, b string) bool {
 	if la == '\'' || la == '"' || fb == '\'' || fb == '"' {
 		return false
 	}
+	if a == "-" {
+		// the minus sign is a token of its own whatever follows: -3, -.5, -.., -a, --1
+		return false
+	}
 	if nameish(la) && nameish(fb) {
 		return true
 	}
